@@ -288,13 +288,13 @@ func assignedOnlyFrom(f *Func, obj types.Object, ok func(rhs ast.Expr, idx int, 
 			}
 			count++
 			var rhs ast.Expr
-			idx := 0
+			idx, cnt := 0, len(as.Lhs)
 			if len(as.Rhs) == len(as.Lhs) {
-				rhs = as.Rhs[i]
+				rhs, cnt = as.Rhs[i], 1 // a, b := x, y: each variable has its own single-valued source
 			} else {
 				rhs, idx = as.Rhs[0], i
 			}
-			if !ok(rhs, idx, len(as.Lhs)) {
+			if !ok(rhs, idx, cnt) {
 				all = false
 			}
 		}
